@@ -1679,10 +1679,14 @@ class BoundaryArc(Geodesic):
         # the arc
         dets = utils.det(point_data).astype('float64')
 
-        point_data[np.abs(dets) < ERROR_THRESHOLD, 2] = orientation_pt_2
+        # the determinant scales with the representatives of the endpoints
+        scale = np.prod(np.sqrt(utils.normsq(endpoints).astype('float64')),
+                        axis=-1)
+        degenerate = np.abs(dets) < ERROR_THRESHOLD * scale
+        point_data[degenerate, 2] = orientation_pt_2[degenerate, 0]
 
         signs = utils.det(point_data).astype('float64')
-        point_data[dets < 0, 2] *= -1
+        point_data[signs < 0, 2] *= -1
 
         self.set(point_data)
 
